@@ -29,7 +29,7 @@ ASSUMPTIONS = ['the documentation tables of the tree under test are the specific
                'propagate_fft refusing tilt-carrying wavefronts (NotImplementedError) is C09\'s rule, not a table entry']
 EXHAUSTIVE = True
 PLAN = {'quick': {'gen': 8}, 'thorough': {'gen': 16, 'tests': 1}}
-REQUIRED_BUCKETS = ['defaults', 'sampling:decimal-ratio', 'sampling:decimal-ratio:one-ulp-off', 'propagate:field-less', 'other-process', 'form:shared-plane-object', 'form:scalar+sampling', 'form:other-focal', 'form:no-focal', 'form:reassigned', 'typed-tilt-class', 'start:none+focal', 'form:mismatch', 'copy-step', 'form:scalar', 'form:disjoint', 'start:none', 'start:pupil', 'start:image', 'len:1', 'len:2', 'len:3', 'random-long',
+REQUIRED_BUCKETS = ['defaults', 'reuse', 'sampling:decimal-ratio', 'sampling:decimal-ratio:one-ulp-off', 'propagate:field-less', 'other-process', 'form:shared-plane-object', 'form:scalar+sampling', 'form:other-focal', 'form:no-focal', 'form:reassigned', 'typed-tilt-class', 'start:none+focal', 'form:mismatch', 'copy-step', 'form:scalar', 'form:disjoint', 'start:none', 'start:pupil', 'start:image', 'len:1', 'len:2', 'len:3', 'random-long',
                     'cell:allowed', 'cell:refused', 'propagate:allowed', 'propagate:refused']
 REQUIRED_ANCHORS = ['anchor:_can_mul_ptype', 'anchor:_mul_result_ptype', 'anchor:_propagate_ptype', 'anchor:Image.multiply',
                     'anchor:PType.__eq__']
